@@ -295,6 +295,16 @@ def case_bulk_glue(ctx, nf, nd):
             ctx.check(ctx.eq(a, b), "D-BATCH.rate", info="rate()[p] is the single-point result")
     calls.clear()
     bulk = np.asarray(gen.bulk_rate(s, U, Dr, roughness_length=z0).values)
+    # the bulk path hands every point its own spectrum / wind / depth / roughness as well
+    bcalls = [c for c in calls if c[0] == "g"]
+    ctx.check(len(bcalls) == npts, "D-BATCH.args", info="bulk_rate evaluates the source term once per point")
+    for p, c in enumerate(bcalls[:npts]):
+        ok = all(a is b for a, b in zip(np.asarray(c[1]).flat, E[p].flat))
+        ctx.check(ok, "D-BATCH.args", info="bulk: point p is evaluated with its own spectrum")
+        ctx.check(c[2][0] is U.values[p] or ctx.eq(c[2][0], U.values[p]), "D-BATCH.args", info="bulk: own wind speed")
+        ctx.check(float(c[2][1]) == float(Dr.values[p]) and c[2][2] == "u10", "D-BATCH.args", info="bulk: own wind direction / type")
+        ctx.check(float(c[3]) == float(depth[p]), "D-BATCH.args", info="bulk: own depth")
+        ctx.check(c[4] is z0.values[p] or ctx.eq(c[4], z0.values[p]), "D-BATCH.args", info="bulk: own roughness length")
     calls.clear()
     dbulk = np.asarray(diss.bulk_rate(s).values)
     calls.clear()
@@ -378,9 +388,9 @@ def cases(tier):
                 wtype="friction_velocity", prefilled=True, opts=dict(weight=30))
         if nd == 3 or (not q and nd <= 5):     # nd=6 does not finish within 3000 s: outside the bound
             add("case_breaking_units", f"satbreak_nd{nd}", nd=nd, unit="saturation",
-                opts=dict(weight=nd * 20, case_timeout_s=280 if q else 3000))
+                opts=dict(weight=nd * 20, case_timeout_s=900 if q else 3000))
     add("case_saturation", "saturation_nd8", nd=8)
-    add("case_breaking_units", "cumbreak_nd3", nd=3, unit="cumulative", opts=dict(weight=100, case_timeout_s=280 if q else 1500))
+    add("case_breaking_units", "cumbreak_nd3", nd=3, unit="cumulative", opts=dict(weight=100, case_timeout_s=900 if q else 1500))
     add("case_zero_spectrum", "zero_st4", kind="st4", nd=4)
     add("case_zero_spectrum", "zero_st6", kind="st6", nd=4)
     add("case_st6", "st6_nd3", nd=3, opts=dict(weight=30))
